@@ -8,6 +8,10 @@ PROP = dict(
         # the 1.3x10^8-call duration sweep: non-sanitized -O2 build, block-journalled hot loop
         dict(name="c18_sweep", src="harness/c18_time.cc", deps=["harness/c18/ref.hh"], flags=["-DC18_SWEEP_ONLY"], flavor="o2",
              shards_quick=8, shards_thorough=16, timeout_quick=400, timeout_thorough=1500),
+        # build configuration of the LIBRARY: the same harness linked against library objects compiled with -DNDEBUG (what CMake's
+        # Release / RelWithDebInfo / MinSizeRel configurations define); subchecks *_nd on a reduced plan
+        dict(name="c18_ndebug", src="harness/c18_time.cc", deps=["harness/c18/ref.hh"], flags=["-DC18_NDEBUG_LIB"], lib_defs=["-DNDEBUG"],
+             shards_quick=4, shards_thorough=8, timeout_quick=400, timeout_thorough=1500),
         # independent cross-check in Python: datetime for the calendar, fractions.Fraction for duration texts and size bounds
         dict(name="c18_py", kind="pydriver", driver="oracle/c18_time.py", shim="shim/c18_shim.cc", deps=["shim/shim.hh"],
              shards_quick=4, shards_thorough=8, timeout_quick=400, timeout_thorough=1500),
@@ -43,7 +47,10 @@ PROP = dict(
                  "usecs < 2^63 for the timeval conversions",
                  "format_duration / format_time / format_size / parse_size are pure functions of their arguments: neither the errno value on entry nor "
                  "earlier calls on the same thread may change a result (each time_seq case runs on a fresh thread so that it replays exactly); "
-                 "parse_size must return (not throw) for every text that denotes a representable size"],
+                 "parse_size must return (not throw) for every text that denotes a representable size",
+                 "library build configurations checked: assertions on (-O1, ASan+UBSan), -O2 without sanitizers (duration sweep only) and -DNDEBUG (-O1, ASan+UBSan); the harness itself never relies on assert()",
+                 "the functions have no 'no longer usable' phase: calls made after main() returned (static destructors of objects constructed before the first call, atexit handlers registered before it) "
+                 "must give what the same calls gave inside main()"],
     min_evaluations_quick=1000000,
     technique=("property-based testing: exhaustive window sweeps + rapidcheck generation against references written in the harness with exact "
                "integer arithmetic (duration-text evaluator in 128-bit microseconds, days-to-civil conversion cross-checked against std::chrono and "
